@@ -73,7 +73,7 @@ Section AvailSteps.
     Good cfg st -> Avail (lends st) -> close_borrow cfg st user bid e = Ok st' -> Avail (lends st').
   Proof.
     intros (_ & HS) HA H. unfold close_borrow in H. destr_all H; it_b; av_pos HA.
-    match goal with G : zget (borrows st) bid = Some ?b |- _ => pose proof (proj1 (HS _ _ G)) end.
+    match goal with G : zget (borrows st) bid = Some ?b, Hq : b_liq ?b = false |- _ => pose proof (proj1 (HS _ _ G Hq)) end.
     injection H as <-. cbn [lends with_bank with_books]. apply A_upd; [assumption|]. cbn [upd_lend l_avail iter_b upd_borrow b_in]. lia.
   Qed.
 
